@@ -260,6 +260,7 @@ rt_blocks!(rt_pcbc_b2_w2_n3, 48, pcbc, U2, 2, U2, 2, U2, 3, U2, 2);
 rt_blocks!(rt_ige_b2_w2_n3, 48, ige, U2, 2, U4, 4, U2, 3, U2, 2);
 rt_blocks!(rt_cfb_b2_w2_n3, 48, cfb_mode, U2, 2, U2, 2, U2, 3, U2, 2);
 rt_blocks!(rt_cfb8_b2_w1_n4, 48, cfb8, U2, 2, U2, 2, U1, 4, U1, 1);
+rt_blocks!(rt_cfb8_b2_w4_n9, 48, cfb8, U2, 2, U2, 2, U4, 9, U1, 1); // cipher width > block size, more than one width of bytes
 rt_blocks!(rt_cbc_b4_w3_n4, 64, cbc, U4, 4, U4, 4, U3, 4, U4, 4);
 rt_padded!(rt_pad_cbc_b4_w2_l0, 64, cbc, Uf, U4, 4, U4, 4, U2, 0, U4, 4);
 rt_padded!(rt_pad_cbc_b4_w2_l3, 64, cbc, Uf, U4, 4, U4, 4, U2, 3, U4, 4);
@@ -274,10 +275,11 @@ rt_buf!(rt_buf_b2_l7_a3_c4, 48, U2, 2, 7, 3, 4);
 rt_buf!(rt_buf_b4_l9_a0_c5, 48, U4, 4, 9, 0, 5);
 rt_stream_ctr!(rt_ctr32be_b4_w2_l9, 48, Ctr32BE, u32, U4, 4, U2, 9);
 rt_stream_ctr!(rt_ctr32le_b4_w1_l9, 48, Ctr32LE, u32, U4, 4, U1, 9);
-rt_stream_ctr!(rt_ctr64be_b8_w1_l17, 64, Ctr64BE, u64, U8, 8, U1, 17);
+rt_stream_ctr!(t_rt_ctr64be_b8_w1_l17, 64, Ctr64BE, u64, U8, 8, U1, 17);
 rt_stream_ctr!(rt_ctr64le_b8_w2_l17, 64, Ctr64LE, u64, U8, 8, U2, 17);
 rt_stream_ctr!(rt_ctr128be_b16_w1_l18, 80, Ctr128BE, u128, U16, 16, U1, 18);
-rt_stream_ctr!(rt_ctr128le_b16_w2_l18, 80, Ctr128LE, u128, U16, 16, U2, 18);
+rt_stream_ctr!(rt_ctr128le_b16_w2_l40, 100, Ctr128LE, u128, U16, 16, U2, 40); // one-shot: parallel group; piecewise: single blocks
+rt_stream_ctr!(rt_ctr64be_b8_w2_l20, 64, Ctr64BE, u64, U8, 8, U2, 20);
 rt_stream_alias!(rt_ofb_b2_l7, 48, ofb::Ofb<UfE<U2, U2>>, U2, 2, 7);
 rt_stream_alias!(rt_belt_l18, 80, BeltPreset, U16, 16, 18);
 rt_cts!(rt_cts_cbc_cs1_b1_w2_l8_from6, 48, CbcCs1, U1, 1, U2, 8, 6);
